@@ -1,6 +1,6 @@
 (* C04 — Depth-bounded creation reaches exactly the grammar's bounded language.
    Only statements closed by [exact]; Print Assumptions; non-vacuity example. *)
-From GE Require Import Base Tape Grammar WellTyped Synth Sat Lang DistProofs SynthFrame SynthSat SynthDepth LangProofs.
+From GE Require Import Base Tape Grammar WellTyped Synth Sat Lang DistProofs SynthFrame SynthSat SynthDepth LangProofs GrowComplete.
 Open Scope Z_scope.
 
 (* "no invalid one is reachable", and "position-independent grow never leaves the bounded language": for EVERY
@@ -16,6 +16,21 @@ Theorem C04_no_invalid_program_reachable : forall d order g k D,
   InLang g D v.
 Proof. exact creation_in_language. Qed.
 Print Assumptions C04_no_invalid_program_reachable.
+
+(* "no valid program is unreachable" (grow): for EVERY finite-choice hierarchy (fc_decl: bool, small integer ranges /
+   lists, names, sized lists, unions, tuples, classes; any number of abstract layers, any recursion) in the default
+   depth mode whose analysis assigned a distance to every class and field type (dist_ok, a decidable condition the
+   check evaluates on every grammar it uses), every iteration order and every limit D: every program of the bounded
+   language that contains no empty list is returned by creation under SOME sequence of random decisions, which the
+   run consumes exactly, for every large enough fuel.  (Programs with empty lists: known finding F10.) *)
+Theorem C04_grow_reaches_every_program : forall d order g D,
+  extract d order = Ok g -> perm_order order -> d_xdepth d = false -> fc_decl d = true -> dist_ok g = true ->
+  forall v, InLang g D v -> noempty v = true ->
+  exists tape F, forall fuel, (F <= fuel)%nat ->
+    exists st', create_node fuel g (DMax D) (TSym (d_start (g_decl g))) ctx0 [] (st_init g (Native tape)) = (Ok v, st') /\
+                st_src st' = Native [].
+Proof. exact grow_reaches_language. Qed.
+Print Assumptions C04_grow_reaches_every_program.
 
 (* the independent enumeration used by the check (Spec/Lang.v, built from the declarations only) lists only
    members of the bounded language: programs of the start symbol satisfying every refinement, no deeper than k *)
@@ -42,13 +57,14 @@ Definition ex4 : decl :=
 
 Example C04_nonvacuous :
   decl_ok ex4 = true /\ decl_live ex4 = true /\ fc_decl ex4 = true /\
-  exists g, extract ex4 id_order = Ok g /\ decider_validate g (DMax 2) = Ok tt /\
+  noempty (VNode 2%nat [VNode 1%nat [VInt 1]; VNode 1%nat [VInt 0]]) = true /\
+  exists g, extract ex4 id_order = Ok g /\ dist_ok g = true /\ decider_validate g (DMax 2) = Ok tt /\
     length (lang (g_decl g) (g_reg g) 2) = 6%nat /\
     exists st', create_node 80 g (DMax 2) (TSym 0%nat) ctx0 [] (st_init g (Native [DI 1; DI 0; DI 1; DI 0; DI 0])) =
                 (Ok (VNode 2%nat [VNode 1%nat [VInt 1]; VNode 1%nat [VInt 0]]), st') /\
                 In (VNode 2%nat [VNode 1%nat [VInt 1]; VNode 1%nat [VInt 0]]) (lang (g_decl g) (g_reg g) 2).
 Proof.
-  split; [reflexivity|]. split; [reflexivity|]. split; [reflexivity|].
+  split; [reflexivity|]. split; [reflexivity|]. split; [reflexivity|]. split; [reflexivity|].
   destruct (extract ex4 id_order) as [g|] eqn:E; [|vm_compute in E; discriminate].
   exists g. vm_compute in E. inversion E; subst. repeat split; try reflexivity.
   eexists. split; vm_compute; [reflexivity|]. right; right; right; right. left. reflexivity.
